@@ -554,6 +554,29 @@ def r7_recomputed_not_stale(chk: Check):
     c01.r3_cache(chk)
 
 
+def r8_loaders_defined(chk: Check):
+    """Loading back must yield the graph on every path of the loaders: a local read on a path that skipped its assignment is an
+    UnboundLocalError instead of a result"""
+    from ..dataflow import unbound_reads
+
+    tree = chk.tree
+    n = 0
+    for mod, qual in (("core.objects", "ConfigInformation.fromParameters"), ("core.objects", "ConfigInformation.load_objects"), ("core.objects", "ConfigInformation._objectFromParameters"),
+                      ("core.objects", "ConfigInformation.deserialize"), ("core.objects", "ConfigInformation.__get_objects__"), ("core.objects", "ConfigInformation._outputjsonvalue"),
+                      ("core.serialization", "json_object"), ("core.serialization", "state_dict"), ("core.serialization", "from_state_dict"), ("core.serialization", "load"),
+                      ("core.serialization", "from_task_dir"), ("run", "run")):
+        f = tree.func(mod, qual)
+        n += 1
+        bad = unbound_reads(f.node)
+        if bad:
+            x, line = bad[0]
+            chk.violation(chk.fkey(f, f"`{x.id}` read before assignment"), f"`{x.id}` is a local of `{f.qual}` read at line {line} on a path where it was not assigned: loading raises UnboundLocalError "
+                          "instead of returning the graph", chk.loc(f.module, x))
+        else:
+            chk.ok(chk.fkey(f, "every local read is bound"), chk.loc(f.module, f.node))
+    chk.min_instances(n, 10, "writer / loader functions checked for definedness")
+
+
 RULES = [
     ("R1", "record keys: mandatory keys unconditional; optional keys written exactly when their source is set; every key read is written; pre-tasks / init-tasks / task / meta / fields / typename / identifier are restored", r1_record_keys),
     ("R2", "value tags: every storable kind is written; tags and payload keys of writer and loader agree; references go through the objects table; the collector reaches what the writer references", r2_value_tags),
@@ -561,5 +584,6 @@ RULES = [
     ("R4", "every argument value (ignored, generated, constant included) is written", r4_all_values_written),
     ("R5", "sharing and cycles: visited-test and mark before recursion, children before parent; loader creates all objects before filling", r5_sharing),
     ("R7", "identifiers of a reloaded graph are recomputed, never taken from a cache filled by the loader (= C01.R3: only identifiers() writes the cache)", r7_recomputed_not_stale),
+    ("R8", "definedness of the writers and loaders: every local read is assigned on every path that reaches it (no UnboundLocalError instead of a loaded graph)", r8_loaders_defined),
     ("R6", "top-level keys of the parameter file read by run / load_job / filters / from_task_dir are written; tags reach the task before execute()", r6_top_level),
 ]
